@@ -213,6 +213,15 @@ def run(rep):
                     rng = [st2 for _, st2 in stmts if st2['rv']['rk'] == 'aggregate' and 'ops::Range::Range' in st2['rv']['agg']]
                     start0 = any(st2['rv']['ops'][0].get('const', '').replace('const ', '').split('_')[0] == '0' for st2 in rng)
                     len_same = any(cname(c).startswith('std::collections::BTreeMap') and method(cname(c)) == 'len' and canon(B, op_place(c['args'][0]))[0] == r[0] for _, c in calls)
+                    if not len_same:
+                        # the length of the (not yet advanced) keys() iterator of that same map: ExactSizeIterator::len
+                        for _, c in calls:
+                            if cname(c) == 'std::iter::ExactSizeIterator::len' and op_local(c['args'][0]) is not None:
+                                _, rc, _ = B.backward_slice([op_local(c['args'][0])])
+                                rn = [(method(cname(x)), x) for _, x in rc]
+                                if rn and all(m_ in ('keys', 'new', 'default') for m_, _ in rn) and \
+                                        any(m_ == 'keys' and cname(x).startswith('std::collections::BTreeMap') and canon(B, op_place(x['args'][0]))[0] == r[0] for m_, x in rn):
+                                    len_same = True
                     casts = closure_casts(mir, B, calls)
                     if start0 and len_same and casts and truthy_only(g):
                         dens = ('keys().map(cast).eq(0..len)', g)
